@@ -42,7 +42,31 @@ _touch_codes = set()      # code objects that read/write process-global state
 _tool_claimed = False
 
 
+line_hook = None          # single-threaded worlds: called on every instrumented line event
+start_hook = None         # called on PY_START of the code objects registered with watch_starts()
+_start_codes = set()
+
+
+def _on_start(code, offset):
+    h = start_hook
+    if h is not None:
+        h(code)
+
+
+def watch_starts(codes):
+    _claim_tool()
+    for c in codes:
+        if c not in _start_codes:
+            ev = _MON.events.PY_START | (_MON.events.LINE if c in _instrumented else 0)
+            _MON.set_local_events(TOOL_ID, c, ev)
+            _start_codes.add(c)
+
+
 def _on_line(code, line):
+    h = line_hook
+    if h is not None:
+        h(code, line)
+        return
     k = _K
     if k is None:
         return
@@ -67,6 +91,7 @@ def _claim_tool():
         if _MON.get_tool(TOOL_ID) is None:
             _MON.use_tool_id(TOOL_ID, 'hl7apy-verif-sim')
         _MON.register_callback(TOOL_ID, _MON.events.LINE, _on_line)
+        _MON.register_callback(TOOL_ID, _MON.events.PY_START, _on_start)
         _tool_claimed = True
 
 
@@ -120,7 +145,8 @@ def instrument(codes, touch=False):
     _claim_tool()
     for c in codes:
         if c not in _instrumented:
-            _MON.set_local_events(TOOL_ID, c, _MON.events.LINE)
+            ev = _MON.events.LINE | (_MON.events.PY_START if c in _start_codes else 0)
+            _MON.set_local_events(TOOL_ID, c, ev)
             _instrumented[c] = 'line'
         if touch:
             _touch_codes.add(c)
@@ -238,6 +264,7 @@ class Kernel:
         self.switch_trace = hashlib.sha1()
         self.lib_switches = 0         # pre-emptions that landed inside instrumented code
         self.live_switches = 0        # ... while >= 2 threads were live
+        self.on_preempt = None        # called by the scheduler after a pre-emption, with the thread
         self.on_step = None           # invariant hook, called after every scheduling decision/event
         self.stall_p = 0.0            # probability of letting time pass while threads are runnable
         self.stall_rng = None
@@ -297,6 +324,8 @@ class Kernel:
             if live >= 2:
                 self.live_switches += 1
             self.switch_trace.update(('%d:%s;' % (t.tid, t.last_pos)).encode())
+            if self.on_preempt:
+                self.on_preempt(t)
         else:
             self.switch_trace.update(('%d:%s;' % (t.tid, t.state)).encode())
         return used
